@@ -88,6 +88,15 @@ def check(run, replay=None):
         evs.append(dict(ev="Generate", case=i, exit=rc, errorPrinted=len(errtxt.strip()) > 0, nOps=nops, nDefs=ndefs, err=errtxt[-300:] if rc else ""))
         if rc != 0:
             shutil.rmtree(mod, ignore_errors=True)
+            if g.returncode != 0:
+                # the server is refused: `generate client` has its own path through the generator - alone, it
+                # must refuse too, or produce one method per operation
+                cmod = run.scratch_module("cli-" + tag, modname="scratch/gen")
+                gc = run.sh([swagger, "generate", "client", "-f", sp, "-t", cmod, "--name", "verif"], cwd=cmod, check=False, timeout=900)
+                if gc.returncode == 0:
+                    cnt = json.loads(run.sh([vh, "count-gen", "-dir", cmod]).stdout)
+                    evs.append(dict(ev="ClientOnly", case=i, nClientMethods=cnt["nClientMethods"], nOps=nops))
+                shutil.rmtree(cmod, ignore_errors=True)
             return evs
         os.makedirs(os.path.join(mod, "drv"), exist_ok=True)
         shutil.copy(os.path.join(HARNESS, "drivers", "serverdrv", "main.go.txt"), os.path.join(mod, "drv", "main.go"))
